@@ -42,6 +42,7 @@ type Interp struct {
 	top     *frame
 	overrides map[string]Val
 	inOverride map[string]bool
+	abstracted map[string]bool
 	inInit int
 	panicking []*targetPanic
 }
@@ -542,6 +543,11 @@ func (it *Interp) callFunction(fn *ssa.Function, args []Val, bindings []Val) Val
 		defer func() { it.inOverride[key] = false }()
 		it.ex.noteOverride(key)
 		return it.call(ov, args, nil)
+	}
+	if it.abstracted[key] {
+		if r, ok := it.autoModel(fn, args); ok {
+			return r
+		}
 	}
 	if m, ok := models[key]; ok {
 		it.ex.noteModel(key)
